@@ -509,6 +509,16 @@ def gen_rhs(rng, allowed, tvar, qcount, states=(), rational=False):
     return go(0)
 
 
+def _canon(t):
+    """sums and products up to the order of their arguments (SymPy sorts them)"""
+    if isinstance(t, list):
+        c = [_canon(a) for a in t]
+        if c and c[0] in (4, 5):
+            return [c[0]] + sorted(c[1:], key=repr)
+        return c
+    return t
+
+
 def gen_case(seed, profile='edit'):
     rng = random.Random(seed)
     nbase = rng.randint(7, 12) if profile == 'query' else rng.randint(4, 8 if profile == 'value' else 7)
@@ -565,8 +575,16 @@ def gen_case(seed, profile='edit'):
             lhs = ['d2', y, tvar, (tvar + 1) % nbase]
         else:
             lhs = ['o', [4, [3, y], [3, (y + 1) % nbase]]]
-        pool.append({'lhs': lhs, 'rhs': gen_rhs(rng, list(range(nbase)), tvar, qcount, states=list(range(nbase)),
-                                                rational=(profile == 'value'))})
+        # the model identifies equations by pool index, SymPy by structure (list.remove uses ==): keep the pool free of
+        # structurally equal equations (only possible when no quantity, which has a unique id, occurs)
+        for _ in range(8):
+            rhs = gen_rhs(rng, list(range(nbase)), tvar, qcount, states=list(range(nbase)), rational=(profile == 'value'))
+            if not any(_canon(p['lhs']) == _canon(lhs) and _canon(p['rhs']) == _canon(rhs) for p in pool):
+                break
+        else:
+            qcount[0] += 1
+            rhs = q(qcount[0], '1')
+        pool.append({'lhs': lhs, 'rhs': rhs})
     npool = len(pool)
     ops = []
     nvars = nbase
